@@ -4,7 +4,7 @@ CONSTANTS
   StoreSnapshotLogsManifest = FALSE
   Reader = {"r1"}
   Flusher = {"f1", "f2"}
-  MaxFlush = 3
+  MaxFlush = 2
   MaxCompact = 1
   MaxCleanup = 1
   CollectActiveFirst = FALSE
